@@ -46,6 +46,7 @@ class Summary:
         self.params = params
         self.ret = None            # Val over sources 'p:<param>' (tuple returns: keys '0','1',... ; dict returns: keys by name)
         self.mut = {}              # param -> Val (what flows into the param array by stores)
+        self.sites = {}            # param -> set of (file, function, line, text): in-place stores into the argument (transitive)
 
 
 class Flow:
@@ -70,6 +71,7 @@ class Flow:
         fa.run()
         s = Summary(params)
         s.ret = fa.ret
+        s.sites = {p: set(v) for p, v in fa.sites.items() if p in params}
         for p in params:
             v = fa.env.get(p)
             if v is not None and (v.V - {f'p:{p}'} or v.S - {f's:{p}'}):
@@ -104,6 +106,8 @@ class _FnAnalysis:
         self.flow, self.rel, self.fn = flow, rel, fn
         self.env = dict(env)
         self.ret = None
+        self.sites = {}
+        self.params = set(env)
         self.fn_ctrl = frozenset()       # control sources that persist to the end of the function (early raise/return)
 
     def run(self):
@@ -231,9 +235,20 @@ class _FnAnalysis:
                             node = k.value
                     if isinstance(node, ast.Name):
                         cur = self.env.get(node.id, Val())
+                        if node.id in self.params and s.sites.get(p):
+                            self.sites.setdefault(node.id, set()).update(s.sites[p])
                         add = _subst(mv, argmap)
                         # an in-place store changes the caller's values, never its shape
                         self.env[node.id] = Val(cur.V | add.V | self.cur_ctrl, cur.S, cur.keys)
+                for p_, st_ in s.sites.items():
+                    node_ = None
+                    if p_ in s.params and s.params.index(p_) < len(n.args):
+                        node_ = n.args[s.params.index(p_)]
+                    for k_ in n.keywords:
+                        if k_.arg == p_:
+                            node_ = k_.value
+                    if isinstance(node_, ast.Name) and node_.id in self.params and st_:
+                        self.sites.setdefault(node_.id, set()).update(st_)
                 return _subst(s.ret, argmap)
         # method call on a tracked value: x.astype(..), x.sum(..), x.reshape(..), x.upper() ...
         recv = Val()
@@ -287,6 +302,8 @@ class _FnAnalysis:
             while isinstance(base, ast.Subscript):
                 base = base.value
             iv = self.ev(t.slice)
+            if isinstance(base, ast.Name) and base.id in self.params:
+                self.sites.setdefault(base.id, set()).add((self.rel, self.fn.name, getattr(t, 'lineno', 0), unparse(t)))
             if isinstance(base, ast.Name):
                 cur = self.env.get(base.id, Val())
                 if cur.keys is not None and isinstance(t.slice, ast.Constant) and isinstance(t.value, ast.Name):
@@ -305,6 +322,9 @@ class _FnAnalysis:
                 self.assign(t, v, ctrl)
             return None
         if isinstance(s, ast.AugAssign):
+            if isinstance(s.target, ast.Name) and s.target.id in self.params:
+                # `param += x` updates an ndarray argument in place
+                self.sites.setdefault(s.target.id, set()).add((self.rel, self.fn.name, s.lineno, unparse(s)))
             v = self.ev(s.value).join(self.ev(s.target))
             self.assign(s.target, v, ctrl)
             return None
